@@ -180,6 +180,7 @@ type c16Op struct {
 }
 
 func funcOfSite(site string) string {
+	site = strings.TrimPrefix(site, "!")
 	if i := strings.LastIndexByte(site, ' '); i >= 0 {
 		pkg := site
 		if j := strings.IndexByte(site, '/'); j >= 0 {
@@ -315,7 +316,14 @@ func c16Run(r *core.Run) {
 	// --- solo pass: verdicts when run alone, yield count, and the single-call before/after snapshot
 	yields := 0
 	lastSite, prevSite := "", ""
-	counting := func(site string) { yields++; prevSite, lastSite = lastSite, site }
+	siteSteps := map[string][]int{} // static site -> the dynamic yield indices at which it executed
+	counting := func(site string) {
+		yields++
+		prevSite, lastSite = lastSite, site
+		if l := siteSteps[site]; len(l) < 64 {
+			siteSteps[site] = append(l, yields)
+		}
+	}
 	_ = prevSite
 	c16SetHook(counting)
 	for k, tk := range tasks {
@@ -341,8 +349,37 @@ func c16Run(r *core.Run) {
 	// --- scheduled pass: PCT-style, d <= 3 change points + every Getter park
 	d := 1 + t.Draw(3)
 	changes := map[int]bool{}
+	// half of the change points are uniform over the executed yields, half uniform over the
+	// distinct static sites (then over that site's occurrences): statements that run once are
+	// otherwise drowned by the loops that run thousands of times
+	sites := core.SortedKeys(siteSteps)
+	var hot []string // sites inside functions that touch package-level variables (marked by the instrumenter)
+	for _, s := range sites {
+		if strings.HasPrefix(s, "!") {
+			hot = append(hot, s)
+		}
+	}
 	for i := 0; i < d; i++ {
-		changes[1+t.Draw(total)] = true
+		if len(hot) > 0 && t.Draw(3) == 0 {
+			// first a function (uniformly), then one of its executed sites, then one occurrence
+			byFunc := map[string][]string{}
+			for _, s := range hot {
+				byFunc[funcOfSite(s)] = append(byFunc[funcOfSite(s)], s)
+			}
+			fns := core.SortedKeys(byFunc)
+			fs := byFunc[fns[t.Draw(len(fns))]]
+			occ := siteSteps[fs[t.Draw(len(fs))]]
+			changes[occ[t.Draw(len(occ))]] = true
+			r.Probe("change_point_in_function_touching_package_state")
+			continue
+		}
+		if t.Bool() && len(sites) > 0 {
+			occ := siteSteps[sites[t.Draw(len(sites))]]
+			changes[occ[t.Draw(len(occ))]] = true
+			r.Probe("change_point_chosen_by_static_site")
+		} else {
+			changes[1+t.Draw(total)] = true
+		}
 	}
 	sched = core.NewSched()
 	step := 0
